@@ -149,6 +149,8 @@ struct Gen<'a> {
     rng: &'a mut StdRng,
     env: Vec<(u32, Ty)>,
     next_var: u32,
+    /// parameters of the closures generated so far in this expression
+    used_params: Vec<u32>,
     /// composite string expressions generated so far: reused now and then, so that one evaluation creates
     /// the same new string more than once
     memo: Vec<Vec<Op>>,
@@ -229,13 +231,16 @@ impl<'a> Gen<'a> {
     }
 
     fn closure_arg(&mut self, out: &mut Vec<Op>, elem: Ty, d: u32) {
-        // 5%: shadow a bound variable
+        // 5%: shadow a bound variable; 20%: the name of an earlier closure's parameter (siblings sharing a name)
         let p = if !self.env.is_empty() && self.rng.gen_range(0..20) == 0 {
             self.env[self.rng.gen_range(0..self.env.len())].0
+        } else if !self.used_params.is_empty() && self.rng.gen_range(0..5) == 0 {
+            *pick(self.rng, &self.used_params)
         } else {
             self.next_var += 1;
             self.next_var
         };
+        self.used_params.push(p);
         self.env.push((p, elem));
         let mut body = vec![];
         self.gen(Ty::Bool, d, &mut body);
@@ -251,6 +256,11 @@ impl<'a> Gen<'a> {
         if ty == Ty::Str && !self.memo.is_empty() && self.rng.gen_range(0..3) == 0 {
             let k = self.rng.gen_range(0..self.memo.len());
             out.extend(self.memo[k].iter().cloned());
+            return;
+        }
+        // now and then the parameter of a closure that has ended: unbound here, must be an error
+        if !self.used_params.is_empty() && self.rng.gen_range(0..25) == 0 {
+            out.push(Op::Value(Term::Variable(*pick(self.rng, &self.used_params))));
             return;
         }
         // bound variable of that type
@@ -490,6 +500,26 @@ pub fn run(opts: &Opts) {
         }
     }
 
+    // what is left of a closure's parameter after the closure: nothing (a later use is an unknown variable, a sibling
+    // closure may take the same name), whether the iteration stopped early or ran to the end
+    for b in [Binary::All, Binary::Any] {
+        for l in vs.iter().filter(|v| matches!(v, Term::Set(_) | Term::Array(_) | Term::Map(_))) {
+            for (params, body) in bodies.iter().filter(|(p, _)| p == &vec![3u32]) {
+                let first = vec![Op::Value(l.clone()), Op::Closure(params.clone(), body.clone()), Op::Binary(b.clone())];
+                let mut ops = first.clone();
+                ops.extend([Op::Value(Term::Variable(3)), Op::Value(Term::Variable(3)), Op::Binary(Binary::HeterogeneousEqual), Op::Binary(Binary::And)]);
+                emit(&mut sink, make_case(&symbols, &vals, &ops), "tablecloafter");
+                let mut ops = first.clone();
+                ops.extend(first.clone());
+                ops.push(Op::Binary(Binary::Or));
+                emit(&mut sink, make_case(&symbols, &vals, &ops), "tablecloafter");
+                let mut ops = first.clone();
+                ops.push(Op::Closure(vec![], first.clone()));
+                ops.push(Op::Binary(Binary::LazyAnd));
+                emit(&mut sink, make_case(&symbols, &vals, &ops), "tablecloafter");
+            }
+        }
+    }
     // a unary operator applied to a closure (never well formed: the stack must be refused), before an operator
     // that would accept the closure
     let some_vs: Vec<Term> = vs.iter().step_by((vs.len() / 8).max(1)).cloned().collect();
@@ -514,7 +544,7 @@ pub fn run(opts: &Opts) {
         let mut env = vec![];
         for k in 0..rng.gen_range(0..4u32) {
             let ty = *pick(&mut rng, &TYS);
-            let mut g = Gen { rng: &mut rng, env: vec![], next_var: 0, memo: vec![] };
+            let mut g = Gen { rng: &mut rng, env: vec![], next_var: 0, used_params: vec![], memo: vec![] };
             let v = g.lit(ty, 1);
             vals.insert(2000 + k, v);
             env.push((2000 + k, ty));
@@ -526,7 +556,7 @@ pub fn run(opts: &Opts) {
         } else {
             let depth = rng.gen_range(1..6);
             let mut ops = vec![];
-            let mut g = Gen { rng: &mut rng, env, next_var: 3000, memo: vec![] };
+            let mut g = Gen { rng: &mut rng, env, next_var: 3000, used_params: vec![], memo: vec![] };
             let ty = if g.rng.gen_range(0..4) == 0 { *pick(g.rng, &TYS) } else { Ty::Bool };
             g.gen(ty, depth, &mut ops);
             emit(&mut sink, make_case(&symbols, &vals, &ops), "typed");
